@@ -35,6 +35,7 @@ def gen(rng, i, quick):
     allc = []
     # light tracking so that the generator follows a delivery-service discipline most of the time
     nrounds = 6 if quick else 12
+    reloads = [0]
     for r in range(nrounds):
         racers = rng.shuffle(NAMES3)[:1 + rng.below(3)]
         this_round = []
@@ -83,6 +84,14 @@ def gen(rng, i, quick):
                     meta.append(len(ops) - 1)
                     built[m].append(cid)
                     allc.append(cid)
+        # a member is stopped and restored from storage while its commit is pending: the restored group
+        # is the same group - it applies the commit, recognises it when the delivery service echoes it,
+        # gives it up for a foreign one (no step of the model: a reload changes nothing)
+        for (m, c, det) in this_round:
+            if rng.chance(1, 4):
+                ops.append({"op": "save", "who": m})
+                ops.append({"op": "load", "who": m})
+                reloads[0] += 1
         # application traffic inside the epoch, read by members with a pending commit
         if rng.chance(2, 3):
             s, t = rng.shuffle(NAMES3)[:2]
